@@ -20,7 +20,7 @@ THEOREMS = ['Fsic.C15.' + n for n in [
 RULE = ('two streams. (a) symbol LISTS that no single parse_model() call returns: permutations, concatenations of two '
         'models (with and without shared names), verbatim symbols before/between equations, repeated symbols, a verbatim '
         'block rescaling a variable that a later equation reads (order observable in the results, checked against running '
-        'each symbol\'s code in list order). (b) grammar programs (gen_scripts.gen_program with verbatim fragments and named periods) extended with fenced '
+        'each symbol\'s code in list order). Every build is also solved on spans of length LAGS+LEADS+{0,1,2} with default and explicit start/end and compared with the hand-computable expectation (positions, statuses, values of one in-order pass; full trivial solve for models without endogenous variables). (b) grammar programs (gen_scripts.gen_program with verbatim fragments and named periods) extended with fenced '
         'verbatim blocks (incl. blank lines and nested indentation), plus the empty script, verbatim-only scripts and '
         'symbol lists with the equation of one endogenous symbol removed; crossed with with_type_hints in {True,False} x '
         'lag/lead settings (default + rows of the C03 Latin design) x converter in {default, identity-on-code, wrapping '
@@ -213,6 +213,101 @@ def reference_evaluate(symbols, labels, names_data, periods, kw):
     return out
 
 
+def reference_solve(symbols, labels, names_data, positions, kw):
+    """One evaluation pass at each of `positions`, in order, on ONE instance of the code-free class: what
+    `solve(max_iter=1)` has to leave behind.  Returns (raised?, values as bit patterns)."""
+    Bare = P.build_model([s_._replace(equation=None, code=None) for s_ in symbols], **kw)
+    m = Bare(list(labels))
+    for name, arr in names_data.items():
+        if name in m.names:
+            m[name] = arr[:len(labels)].copy()
+    raised = False
+    with warnings.catch_warnings():
+        warnings.simplefilter('ignore')
+        try:
+            for t in positions:
+                env = {'self': m, 't': t, 'np': np, 'errors': 'ignore', 'catch_first_error': True, 'iteration': 1, 'kwargs': {}}
+                for s_ in symbols:
+                    if carries(s_):
+                        exec(s_.code, env)
+        except Exception:  # noqa: BLE001
+            raised = True
+    return raised, [[bits(v) for v in m[name]] for name in m.names]
+
+
+def boundary_oracle(rep, info, Model, symbols, kw, str_labels, names_data, has_endogenous):
+    """Spans of length LAGS+LEADS+{0,1,2}: with default (and explicit) start/end exactly the periods LAGS .. n-1-LEADS are
+    solved — one period when n = LAGS+LEADS+1 — and `solve(max_iter=1)` leaves the values of one in-order pass per period."""
+    L, D = Model.LAGS, Model.LEADS
+    if not (isinstance(L, int) and isinstance(D, int)) or L < 0 or D < 0:
+        return
+    for extra in (0, 1, 2):
+        n = L + D + extra
+        if n == 0:
+            continue
+        labels = [str(2000 + i) for i in range(n)] if str_labels else list(range(2000, 2000 + n))
+        want = list(range(L, n - D))
+        rep.dist[f'boundary:n=LAGS+LEADS+{extra}'] += 1
+        binfo = info | {'boundary_n': n, 'LAGS': L, 'LEADS': D}
+        # default range
+        try:
+            got = [int(i) for i, _ in Model(list(labels)).iter_periods()]
+        except Exception as e:  # noqa: BLE001
+            got = pc.exc_name(e)
+        if want:
+            if got != want:
+                rep.violate('boundary-range', f'span of {n} = LAGS+LEADS+{extra}: default range {got}, expected {want}', binfo)
+        elif not (isinstance(got, str) or got == []):
+            rep.violate('boundary-range', f'span of {n} = LAGS+LEADS: default range {got}, expected nothing to solve', binfo)
+        if not want:
+            continue
+        want_raised, want_vals = reference_solve(symbols, labels, names_data, want, kw)
+        calls = [('default', {})]
+        calls.append(('explicit', {'start': labels[want[0]], 'end': labels[want[-1]]}))
+        for label, se in calls:
+            m = Model(list(labels))
+            for name, arr in names_data.items():
+                if name in m.names:
+                    m[name] = arr[:n].copy()
+            raised = False
+            ret = None
+            with warnings.catch_warnings():
+                warnings.simplefilter('ignore')
+                try:
+                    ret = m.solve(max_iter=1, failures='ignore', errors='ignore', **se)
+                except Exception:  # noqa: BLE001
+                    raised = True
+            vals = [[bits(v) for v in m[name]] for name in m.names]
+            status = ''.join(str(x) for x in m.status)
+            if raised != want_raised:
+                rep.violate('boundary-solve', f'{label} solve on a span of {n} = LAGS+LEADS+{extra}: raised={raised}, in-order '
+                            f'execution raised={want_raised}', binfo)
+                continue
+            if raised:
+                continue
+            if [int(i) for i in ret[1]] != want or list(ret[0]) != [labels[i] for i in want]:
+                rep.violate('boundary-solve', f'{label} solve on a span of {n} = LAGS+LEADS+{extra} returned positions '
+                            f'{list(ret[1])}, expected {want}', binfo)
+            elif any((status[i] == '-') != (i not in want) for i in range(n)):
+                rep.violate('boundary-solve', f'{label} solve on a span of {n}: status {status!r}, expected exactly positions '
+                            f'{want} attempted', binfo)
+            elif vals != want_vals:
+                rep.violate('boundary-solve', f'{label} solve(max_iter=1) on a span of {n} = LAGS+LEADS+{extra}: values differ from '
+                            f'one in-order pass at positions {want}', binfo)
+        if not has_endogenous:
+            # nothing to converge on: a full default solve() succeeds with status '.' on exactly those periods
+            try:
+                m = Model(list(labels))
+                ret = m.solve()
+                status = ''.join(str(x) for x in m.status)
+                ok = (list(ret[1]) == want and all(ret[2]) and all((status[i] == '.') == (i in want) for i in range(n)))
+            except Exception as e:  # noqa: BLE001
+                ok, status, ret = False, pc.exc_name(e), None
+            if not ok:
+                rep.violate('boundary-trivial-solve', f'model without endogenous variables on a span of {n}: solve() gave '
+                            f'{ret} / status {status!r}, expected positions {want} all solved', binfo)
+
+
 def carries(s):
     return s.type in (P.Type.ENDOGENOUS, P.Type.VERBATIM) and s.equation is not None and s.code is not None
 
@@ -391,6 +486,12 @@ def run_case(ctx, rep, case, batch):
                     rep.violate('variants-evaluate' + ('' if key[0] else '-untyped'),
                                 f'_evaluate differs between {key} and {ref_key} (first differing period: '
                                 f'{next((x[0] for x, y in zip(ev, ref_eval) if x != y), None)})', info)
+            # boundary span sizes (one solvable period, none, three) against the hand-computable expectation
+            if dupfree and cname == 'default':
+                which = (True, 'build_model') if rng.random() < 0.5 else (False, 'exec(CODE)')
+                bdata = {k: np.concatenate([v, v, v, v]) for k, v in data.items()}
+                boundary_oracle(rep, info, variants[which], symbols, kw, isinstance(case['labels'][0], str), bdata,
+                                any(s.type == P.Type.ENDOGENOUS for s in symbols))
             # symbols without an equation contribute variables but no code: lists follow the symbol types
             by_type = {'ENDOGENOUS': P.Type.ENDOGENOUS, 'EXOGENOUS': P.Type.EXOGENOUS, 'PARAMETERS': P.Type.PARAMETER,
                        'ERRORS': P.Type.ERROR}
@@ -531,7 +632,7 @@ def namespace_note(rep):
 
 
 def run(ctx, rep):
-    n_cases = (220 if ctx.tier == 'quick' else 2500) * ctx.scale
+    n_cases = (200 if ctx.tier == 'quick' else 2000) * ctx.scale
     text_level_correspondence(ctx, rep)
     namespace_note(rep)
     batch = []
@@ -546,7 +647,7 @@ def run(ctx, rep):
         run_case(ctx, rep, case, batch)
         if len(batch) > 20000:
             flush(ctx, rep, batch)
-    n_lists = (260 if ctx.tier == 'quick' else 2500) * ctx.scale
+    n_lists = (220 if ctx.tier == 'quick' else 2000) * ctx.scale
     for i in range(n_lists):
         case = gen_list_case(ctx.sub_rng('symlist', i))
         run_case(ctx, rep, case, batch)
